@@ -32,7 +32,7 @@ RULE = (
     "stop, send inert when done/error/stopped, stop harmless in every status and leaving nothing alive, nothing "
     "delivered after stop even when virtual time passes. Sync threads (E3p): stop() on one virtual thread against an after-timer "
     "thread, a caller thread and a second stop(), every interleaving at line granularity inside stop / send / _process_event_queue / "
-    "the timer thread body with at most the stated preemptions; oracle: no thread raises, status stopped, nothing runs in a send() "
+    "the timer thread body with at most the stated preemptions; async: 2 and 3 start() calls issued in the same loop iteration while the initial entry is suspended (one run loop, nothing processed before the entry finished); oracle for threads: no thread raises, status stopped, nothing runs in a send() "
     "that started after stop() returned, no thread left alive, queue empty; distinct_nontrivial = distinct canonical states + distinct schedules"
 )
 BOUNDS = {"quick": "depth 5, both engines; sync threads: stop() vs after-timer / caller threads, every line-level interleaving with <=1-2 preemptions", "thorough": "depth 7, both engines; sync threads: <=2-3 preemptions"}
@@ -345,6 +345,8 @@ def units(tier: str) -> List[Any]:
     depth = 5 if tier == "quick" else 7
     core.install_logging()
     us: List[Any] = []
+    us.append(("concstart", 2))
+    us.append(("concstart", 3))
     from . import c14_preempt as PP
     from ..preempt import split
 
@@ -368,12 +370,66 @@ def units(tier: str) -> List[Any]:
     return us
 
 
+def run_concurrent_start(k: int) -> Dict[str, Any]:
+    """async engine: k start() calls issued in the same loop iteration while the initial entry action is suspended; then
+    one event.  Judged: one run loop, nothing received before the initial entry finished, the event processed once."""
+    import asyncio as _asyncio
+
+    res = dict(states=0, transitions=0, executions=1, distinct=[hash(("concstart", k))], violations=[], samples=[], caps=[])
+
+    async def slow_entry(interp, ctx, ev, ad):
+        h.rec.log.append(("A", "entry-start", "", None, None, None))
+        await _asyncio.sleep(0.01)
+        h.rec.log.append(("A", "entry-end", "", None, None, None))
+
+    cfg = {"id": "m", "initial": "a", "entry": [A.raise_("X")],
+           "states": {"a": {"entry": ["slow_entry"], "on": {"E": {"actions": ["tr:e"]}, "X": {"actions": ["tr:x"]}}}}}
+    h = Harness(cfg, with_plugin=True, extra_actions={"slow_entry": slow_entry}, budget=2000)
+    d = h.driver("async")
+    try:
+        async def many():
+            await _asyncio.gather(*[d.interp.start() for _ in range(k)])
+
+        err = d._call(many())
+        d.advance(0.05)
+        d.settle()
+        err2 = d.send("E")
+        d.settle()
+        log = list(h.rec.log)
+        names = [e[1] for e in log if e[0] == "A"]
+        evs = [e[1] for e in log if e[0] == "EV"]
+        loops = [t for t in _asyncio.all_tasks(d.loop) if not t.done() and "_run_event_loop" in getattr(t.get_coro(), "__qualname__", "")]
+        bad = []
+        if err is not None or err2 is not None:
+            bad.append(("start-raised", f"{err!r} {err2!r}"))
+        if len(loops) != 1:
+            bad.append(("several-run-loops", f"{len(loops)} run-loop tasks alive after {k} concurrent start() calls"))
+        if names.count("entry-start") != 1:
+            bad.append(("start-while-running-reran-actions", f"{names}"))
+        idx_end = next((i for i, e in enumerate(log) if e[0] == "A" and e[1] == "entry-end"), None)
+        idx_ev = next((i for i, e in enumerate(log) if e[0] == "EV"), None)
+        if idx_end is None or (idx_ev is not None and idx_ev < idx_end):
+            bad.append(("event-processed-during-initial-entry", f"{[(e[0], e[1]) for e in log if e[0] in ('A', 'EV')]}"))
+        if sorted(evs) != ["E", "X"]:
+            bad.append(("event-lost-or-duplicated", f"received {evs}"))
+        for clause, detail in bad:
+            res["violations"].append(dict(signature=f"C14|{clause}|async|concurrent-start", clause=clause,
+                                          what=f"async: {clause}: {detail}; {k} concurrent start() calls", size=k,
+                                          replay=dict(engine="concstart", k=k)))
+        res["samples"].append(dict(engine="async", scenario="concurrent start", calls=k, log=[(e[0], e[1]) for e in log if e[0] in ("A", "EV")]))
+    finally:
+        d.close()
+    return res
+
+
 PREEMPT = {"stop-vs-timer": (2, 3), "stop-vs-caller": (2, 3), "stop-vs-caller+timer": (1, 2), "stop-stop-vs-timer": (1, 2)}
 
 
 def run_unit(unit):
     if unit[0] == "pre":
         return unit[2]
+    if unit[0] == "concstart":
+        return run_concurrent_start(unit[1])
     if unit[0] == "preempt":
         from . import c14_preempt as P
         from ..preempt import unit_result
@@ -395,6 +451,11 @@ def run_unit(unit):
 
 
 def replay(payload):
+    if payload.get("engine") == "concstart":
+        r = run_concurrent_start(payload["k"])
+        for v in r["violations"]:
+            print("  ", v["what"][:300])
+        return r["violations"]
     if payload.get("engine") == "preempt":
         from . import c14_preempt as P
         from ..e2 import Choices
